@@ -177,8 +177,9 @@ _PROJ_BUSY = set()
 class BodyIndex:
     """definition / provenance / mutation indexes of one MIR body"""
 
-    def __init__(self, body):
+    def __init__(self, body, eng=None):
         self.body = body
+        self.eng = eng
         self.cfg = CFG(body)
         self.defs = collections.defaultdict(list)      # local -> [(bb, idx, kind, node)] kind: 'assign'|'call'
         for b in body.blocks:
@@ -358,6 +359,33 @@ class BodyIndex:
                 evs.append({'bb': b['i'], 'idx': TERM_IDX, 'kind': 'call', 'roots': roots, 'callee': callee_name(t),
                             'decl': decl, 'args': oargs, 'mutarg': ai,
                             'node': t, 'line': t['span']['l0']})
+        # writes performed inside closures created here, through captured `&mut` (for_each / try_for_each / map bodies):
+        # attributed to the captured root at the closure's creation site
+        if self.eng is not None:
+            for b in body.blocks:
+                if b['cleanup'] or b['i'] not in self.cfg.reach_set:
+                    continue
+                for i, s in enumerate(b['stmts']):
+                    if s['k'] != 'assign' or s['rv']['k'] != 'aggregate' or s['rv']['kind'].get('a') != 'closure':
+                        continue
+                    cb = self.eng.facts.fn.get(s['rv']['kind']['path'])
+                    if cb is None or cb.key == body.key:
+                        continue
+                    ops = s['rv']['ops']
+                    for e in self.eng.bx(cb).events():
+                        for r in e['roots']:
+                            if r[0] != 'U' or r[1] >= len(ops):
+                                continue
+                            o = ops[r[1]]
+                            if o['k'] not in ('copy', 'move'):
+                                continue
+                            roots = self.place_roots_value(o['place'], frozenset())
+                            if body.is_closure and o['place']['l'] == 1:
+                                roots = self.place_roots_value(o['place'], frozenset())
+                            if not roots:
+                                continue
+                            evs.append({'bb': b['i'], 'idx': i, 'kind': 'closure', 'roots': roots, 'callee': e['callee'], 'decl': e['decl'],
+                                        'args': [], 'inner': e, 'cbody': cb, 'captures': ops, 'line': e['line'], 'closure_local': s['place']['l'] if not s['place']['p'] else None})
         self._events = evs
         return evs
 
@@ -382,7 +410,7 @@ class Engine:
     def bx(self, body):
         k = body.key
         if k not in self._idx:
-            self._idx[k] = BodyIndex(body)
+            self._idx[k] = BodyIndex(body, self)
         return self._idx[k]
 
     # ---- operands, places ----------------------------------------------------------------------
@@ -573,7 +601,42 @@ class Engine:
             self._memo[ekey] = ets
         return T('mut', base, ets)
 
+    APPLIERS = ('std::iter::Iterator::map', 'std::iter::Iterator::for_each', 'std::iter::Iterator::flat_map', 'std::iter::Iterator::filter_map',
+                'std::iter::Iterator::any', 'std::iter::Iterator::all', 'std::iter::Iterator::try_for_each', 'std::iter::Iterator::filter',
+                'std::iter::Iterator::inspect')
+
+    def applied_to(self, body, bb, cl):
+        """iterator term a closure local `cl` (created in block bb) is applied to by an adapter / consumer call, if visible"""
+        cfg = self.bx(body).cfg
+        seen, work = set(), [bb]
+        while work:
+            x = work.pop()
+            if x in seen or len(seen) > 12:
+                continue
+            seen.add(x)
+            t = body.block[x]['term']
+            if t['k'] == 'call':
+                args = t['args']
+                for i, a in enumerate(args):
+                    if a['k'] in ('move', 'copy') and a['place']['l'] == cl and not a['place']['p']:
+                        if callee_decl(t) in self.APPLIERS and i == 1:
+                            return self.operand(body, x, TERM_IDX, args[0])
+                        return None
+            work.extend(cfg.succ.get(x, []))
+        return None
+
     def event_term(self, body, e, depth=0):
+        if e['kind'] == 'closure':
+            cb = e['cbody']
+            inner = self.event_term(cb, e['inner'], depth + 1)
+            env = {}
+            for j, o in enumerate(e['captures']):
+                env[('upvar', cb.key, j)] = self.operand(body, e['bb'], e['idx'], o, depth + 1)
+            if e.get('closure_local') is not None:
+                it = self.applied_to(body, e['bb'], e['closure_local'])
+                if it is not None:
+                    env[('param', cb.key, 2)] = mk_elem(self, it)
+            return self.subst(inner, env, ((body.key, e['bb']),))
         site = ((body.key, e['bb']),)
         if e['kind'] == 'store':
             val = self.rvalue(body, e['bb'], e['idx'], e['rv'], depth)
